@@ -20,6 +20,8 @@ class _FakeNormal:
 
 
 def handle(p):
+    if p["kind"] == "hist":
+        return _handle_hist(p)
     orig = np.random.normal
     if p["kind"] == "sarp":
         np.random.normal = _FakeNormal([_f(h) for h in p["zs"]])
@@ -101,3 +103,87 @@ def _handle(p):
         return res
     except Exception as ex:  # noqa: BLE001
         return {"raise": type(ex).__name__, "msg": str(ex)[:200]}
+
+
+# ------------------------------------------------------------------------------------------ histories
+
+
+def _image_of(det):
+    """What the Image bucket holds: None = empty."""
+    arr = det.image._array
+    if arr is None:
+        return None
+    arr = np.asarray(arr)
+    if arr.dtype.kind != "u":
+        return {"bad_dtype": str(arr.dtype), "codes": [int(v) for v in arr.reshape(-1)]}
+    return {"width": arr.dtype.itemsize * 8, "codes": [int(v) for v in arr.reshape(-1)]}
+
+
+def _handle_hist(p):
+    """A history of operations on ONE detector object: setters of detector.characteristics, a new signal frame,
+    emptying the Image bucket, the three detector-level converter models.  After every operation: did it raise,
+    what does the Image bucket hold, and did the Signal bucket still hold the frame last put there."""
+    from pyxel.detectors import CCD, CCDGeometry, Characteristics, Environment
+    from pyxel.models.readout_electronics import sar_adc, sar_adc_with_noise, simple_adc
+
+    def frame_of(hs, tp):
+        return np.array([[_f(h) for h in hs]], dtype=float).astype(tp)
+
+    last = frame_of(p["xs"], p.get("frame", "float64"))
+    det = CCD(
+        geometry=CCDGeometry(row=1, col=last.shape[1], total_thickness=40.0,
+                             pixel_vert_size=10.0, pixel_horz_size=10.0),
+        environment=Environment(),
+        characteristics=Characteristics(adc_bit_resolution=p["bits"],
+                                        adc_voltage_range=(_f(p["vmin"]), _f(p["vmax"]))),
+    )
+    det.signal.array = last.copy()
+    for op in p["ops"]:
+        if op.get("op") not in ("bits", "range", "signal", "empty", "simple", "sar", "sar0", "sarp"):
+            return {"driver_error": f"unknown operation {op.get('op')}"}
+    out = []
+    orig = np.random.normal
+    for op in p["ops"]:
+        cur = det.signal._array
+        sig_ok = bool(cur is not None and cur.dtype == last.dtype and cur.shape == last.shape
+                      and cur.tobytes() == last.tobytes())
+        raised = None
+        try:
+            with np.errstate(all="ignore"):
+                k = op["op"]
+                if k == "bits":
+                    det.characteristics.adc_bit_resolution = op["b"]
+                elif k == "range":
+                    det.characteristics.adc_voltage_range = (_f(op["vmin"]), _f(op["vmax"]))
+                elif k == "signal":
+                    new = frame_of(op["xs"], op.get("frame", "float64"))
+                    det.signal.array = new.copy()
+                    last = new
+                elif k == "empty":
+                    if op.get("how") == "detector":
+                        # Detector.empty() (what every readout of a pipeline run does first), signal put back
+                        det.empty()
+                        det.signal.array = last.copy()
+                    else:
+                        det.image.empty()
+                elif k == "simple":
+                    if op.get("data_type") is None:
+                        simple_adc(det)
+                    else:
+                        simple_adc(det, data_type=f"uint{op['data_type']}")
+                elif k == "sar":
+                    sar_adc(det)
+                elif k == "sar0":
+                    sar_adc_with_noise(det, strengths=tuple([0.0] * op["n_strengths"]),
+                                       noises=tuple([0.0] * op["n_noises"]))
+                elif k == "sarp":
+                    np.random.normal = _FakeNormal([_f(h) for h in op["zs"]])
+                    try:
+                        sar_adc_with_noise(det, strengths=tuple(_f(h) for h in op["strengths"]),
+                                           noises=tuple(_f(h) for h in op["noises"]))
+                    finally:
+                        np.random.normal = orig
+        except Exception as ex:  # noqa: BLE001
+            raised = type(ex).__name__
+        out.append({"raised": raised, "image": _image_of(det), "sig_ok": sig_ok})
+    return {"trace": out}
